@@ -50,12 +50,80 @@ pub enum IsTag {
     Single(String),
     Absent,
 }
+/// the value of a further tag of a def dict, as far as the namespace code tells values apart
+#[derive(Clone, Debug, PartialEq)]
+pub enum ExtraV {
+    Marker,
+    /// a Symbol
+    Sym(String),
+    /// a List; `None` = an item that is not a Symbol
+    List(Vec<Option<String>>),
+    /// any other value (a Str)
+    Other,
+}
+impl ExtraV {
+    pub fn sym(s: &str) -> ExtraV {
+        ExtraV::Sym(s.to_string())
+    }
+    /// one token: `-` Marker, hex Symbol, `O` other, `L` + comma separated items (hex or `-`) List
+    pub fn token(&self) -> String {
+        match self {
+            ExtraV::Marker => "-".into(),
+            ExtraV::Sym(s) => vx::h(s),
+            ExtraV::Other => "O".into(),
+            ExtraV::List(l) => format!("L{}", l.iter().map(vx::ho).collect::<Vec<_>>().join(",")),
+        }
+    }
+    pub fn parse(t: &str) -> Option<ExtraV> {
+        if t == "-" {
+            Some(ExtraV::Marker)
+        } else if t == "O" {
+            Some(ExtraV::Other)
+        } else if let Some(rest) = t.strip_prefix('L') {
+            if rest.is_empty() {
+                return Some(ExtraV::List(vec![]));
+            }
+            let mut v = Vec::new();
+            for it in rest.split(',') {
+                v.push(if it == "-" { None } else { Some(vx::unh(it)?) });
+            }
+            Some(ExtraV::List(v))
+        } else {
+            Some(ExtraV::Sym(vx::unh(t)?))
+        }
+    }
+}
+/// what the model is told about a tag
+#[derive(Clone, Debug, PartialEq)]
+pub enum XTag {
+    Marker,
+    Sym(String),
+    List(Vec<Option<String>>),
+    Other,
+}
+fn list_value(l: &[Option<String>]) -> Value {
+    Value::make_list(
+        l.iter()
+            .enumerate()
+            .map(|(i, it)| match it {
+                Some(s) => Value::make_symbol(s),
+                None => {
+                    if i % 2 == 0 {
+                        Value::make_str("notASymbol")
+                    } else {
+                        Value::make_int(i as i64)
+                    }
+                }
+            })
+            .collect(),
+    )
+}
 #[derive(Clone, Debug)]
 pub struct RowSpec {
     pub def: DefTag,
     pub is: IsTag,
-    /// further tags of the def dict (relationship / association tags for C14), symbol valued or marker
-    pub extra: Vec<(String, Option<String>)>,
+    /// further tags of the def dict (relationship / association tags)
+    pub extra: Vec<(String, ExtraV)>,
 }
 
 impl RowSpec {
@@ -110,14 +178,49 @@ impl RowSpec {
         }
         d.insert("doc".into(), Value::make_str("generated"));
         for (k, v) in &self.extra {
+            if k == "def" {
+                continue;
+            }
             match v {
-                // `tagOn` is a list of symbols
-                Some(s) if k == "tagOn" => d.insert(k.clone(), Value::make_list(vec![Value::make_symbol(s)])),
-                Some(s) => d.insert(k.clone(), Value::make_symbol(s)),
-                None => d.insert(k.clone(), Value::make_marker()),
+                ExtraV::Sym(s) => d.insert(k.clone(), Value::make_symbol(s)),
+                ExtraV::Marker => d.insert(k.clone(), Value::make_marker()),
+                ExtraV::List(l) => d.insert(k.clone(), list_value(l)),
+                ExtraV::Other => d.insert(k.clone(), Value::make_str("other")),
             };
         }
         d
+    }
+    /// what the model of part 2 sees: the def symbol and every tag but `def`, exactly as `to_dict` builds them
+    /// (a later insert of the same key replaces the earlier)
+    pub fn model_view_x(&self) -> (Option<String>, Vec<(String, XTag)>) {
+        let n = match &self.def {
+            DefTag::Sym(s) => Some(s.clone()),
+            _ => None,
+        };
+        let mut tags: BTreeMap<String, XTag> = BTreeMap::new();
+        match &self.is {
+            IsTag::List(l) => {
+                tags.insert("is".into(), XTag::List(l.clone()));
+            }
+            IsTag::Single(s) => {
+                tags.insert("is".into(), XTag::Sym(s.clone()));
+            }
+            IsTag::Absent => {}
+        }
+        tags.insert("doc".into(), XTag::Other);
+        for (k, v) in &self.extra {
+            if k == "def" {
+                continue;
+            }
+            let x = match v {
+                ExtraV::Sym(s) => XTag::Sym(s.clone()),
+                ExtraV::Marker => XTag::Marker,
+                ExtraV::List(l) => XTag::List(l.clone()),
+                ExtraV::Other => XTag::Other,
+            };
+            tags.insert(k.clone(), x);
+        }
+        (n, tags.into_iter().collect())
     }
 }
 
@@ -152,7 +255,7 @@ pub fn write_rows(rows: &[RowSpec], out: &mut Vec<String>) {
         out.push(r.extra.len().to_string());
         for (k, v) in &r.extra {
             out.push(vx::h(k));
-            out.push(vx::ho(v));
+            out.push(v.token());
         }
     }
 }
@@ -184,7 +287,11 @@ pub fn read_rows(rd: &mut vx::Rd) -> Option<Vec<RowSpec>> {
         let mut extra = Vec::new();
         for _ in 0..ne {
             let k = rd.hs()?;
-            let v = rd.hos()?;
+            let v = match ExtraV::parse(rd.tok()?)? {
+                // the first generators wrote a `tagOn` list of one Symbol as that Symbol
+                ExtraV::Sym(s) if k == "tagOn" => ExtraV::List(vec![Some(s)]),
+                v => v,
+            };
             extra.push((k, v));
         }
         rows.push(RowSpec { def, is, extra });
@@ -254,6 +361,36 @@ pub fn model_graph_tokens(rows: &[RowSpec]) -> String {
         t.push(items.len().to_string());
         for it in &items {
             t.push(vx::ho(it));
+        }
+    }
+    t.join(" ")
+}
+
+/// the graph as the request tokens of part 2:
+/// `<nrows> {<def|-> <ntags> {<key> (m | s <sym> | l <n> {<item|->}* | o)}*}*`
+pub fn model_graph_tokens_x(rows: &[RowSpec]) -> String {
+    let mut t = vec![rows.len().to_string()];
+    for r in rows {
+        let (n, tags) = r.model_view_x();
+        t.push(vx::ho(&n));
+        t.push(tags.len().to_string());
+        for (k, v) in &tags {
+            t.push(vx::h(k));
+            match v {
+                XTag::Marker => t.push("m".into()),
+                XTag::Other => t.push("o".into()),
+                XTag::Sym(s) => {
+                    t.push("s".into());
+                    t.push(vx::h(s));
+                }
+                XTag::List(l) => {
+                    t.push("l".into());
+                    t.push(l.len().to_string());
+                    for it in l {
+                        t.push(vx::ho(it));
+                    }
+                }
+            }
         }
     }
     t.join(" ")
@@ -658,6 +795,379 @@ fn run_queries(
         write_names(bases, &mut t);
         out.req(format!("C13 refl {graph} {}", t.join(" ")), format!("ok {}", rreplies.join(";")));
     }
+}
+
+
+// ------------------------------------------------------------------------------------------------
+// part 2: associations, implementation, root tests, indexes, entity type, has_relationship
+// ------------------------------------------------------------------------------------------------
+/// a record for `has_relationship`: the name the resolver knows it under, and its tags (`Some(id)` = a Ref)
+#[derive(Clone, Debug)]
+pub struct RelRec {
+    pub key: Option<String>,
+    pub tags: Vec<(String, Option<String>)>,
+}
+#[derive(Clone, Debug)]
+pub struct RelQuery {
+    pub subject: usize,
+    pub rel: String,
+    pub term: Option<String>,
+    pub target: Option<String>,
+}
+impl RelRec {
+    pub fn dict(&self) -> Dict {
+        let mut d = Dict::new();
+        for (k, v) in &self.tags {
+            match v {
+                Some(r) => d.insert(k.clone(), Value::make_ref(r)),
+                None => d.insert(k.clone(), Value::make_marker()),
+            };
+        }
+        d
+    }
+}
+pub fn write_rel(recs: &[RelRec], qs: &[RelQuery], out: &mut Vec<String>) {
+    out.push(recs.len().to_string());
+    for r in recs {
+        out.push(vx::ho(&r.key));
+        out.push(r.tags.len().to_string());
+        for (k, v) in &r.tags {
+            out.push(vx::h(k));
+            out.push(vx::ho(v));
+        }
+    }
+    out.push(qs.len().to_string());
+    for q in qs {
+        out.push(q.subject.to_string());
+        out.push(vx::h(&q.rel));
+        out.push(vx::ho(&q.term));
+        out.push(vx::ho(&q.target));
+    }
+}
+pub fn read_rel(rd: &mut vx::Rd) -> Option<(Vec<RelRec>, Vec<RelQuery>)> {
+    let n: usize = rd.num()?;
+    let mut recs = Vec::new();
+    for _ in 0..n {
+        let key = rd.hos()?;
+        let k: usize = rd.num()?;
+        let mut tags = Vec::new();
+        for _ in 0..k {
+            let t = rd.hs()?;
+            let v = rd.hos()?;
+            tags.push((t, v));
+        }
+        recs.push(RelRec { key, tags });
+    }
+    let nq: usize = rd.num()?;
+    let mut qs = Vec::new();
+    for _ in 0..nq {
+        qs.push(RelQuery { subject: rd.num()?, rel: rd.hs()?, term: rd.hos()?, target: rd.hos()? });
+    }
+    Some((recs, qs))
+}
+
+/// the last row per def symbol (as `Namespace::make` keeps it), with the model's view of its tags
+fn last_rows(rows: &[RowSpec]) -> BTreeMap<String, BTreeMap<String, XTag>> {
+    let mut m = BTreeMap::new();
+    for r in rows {
+        let (n, tags) = r.model_view_x();
+        if let Some(n) = n {
+            m.insert(n, tags.into_iter().collect::<BTreeMap<_, _>>());
+        }
+    }
+    m
+}
+fn xt_list<'a>(t: Option<&'a XTag>) -> Option<&'a Vec<Option<String>>> {
+    match t {
+        Some(XTag::List(l)) => Some(l),
+        _ => None,
+    }
+}
+fn show_in_order(v: &[String]) -> String {
+    v.iter().map(|s| vx::h(s)).collect::<Vec<_>>().join(",")
+}
+
+/// the association names asked of every query symbol
+fn assoc_names(rows: &[RowSpec], o: &Oracle) -> Vec<String> {
+    let lr = last_rows(rows);
+    let mut v: Vec<String> = vec!["is".into(), "tagOn".into(), "tags".into(), "neverMentioned".into()];
+    for (n, tags) in &lr {
+        if xt_list(tags.get("is")).map_or(false, |l| l.contains(&Some("association".to_string()))) {
+            v.push(n.clone());
+        }
+    }
+    // a def that is no association
+    if let Some(n) = o.is.keys().find(|n| !v.contains(n)) {
+        v.push(n.clone());
+    }
+    v.sort();
+    v.dedup();
+    v.truncate(10);
+    v
+}
+
+#[allow(clippy::too_many_arguments)]
+fn run_part2(
+    rows: &[RowSpec],
+    ns: &'static Namespace<'static>,
+    queries: &[String],
+    recs: &[RecSpec],
+    rel: Option<&(Vec<RelRec>, Vec<RelQuery>)>,
+    out: &mut CaseOut,
+) {
+    let o = Oracle::new(rows);
+    let lr = last_rows(rows);
+    let graph = model_graph_tokens_x(rows);
+    let sym = |s: &str| Symbol::from(s);
+    // ---- indexes -----------------------------------------------------------------------------
+    let show_map = |m: Vec<(String, Vec<String>)>, sort_vals: bool| -> String {
+        let mut m = m;
+        m.sort();
+        m.iter()
+            .map(|(k, v)| {
+                let mut v = v.clone();
+                if sort_vals {
+                    v.sort();
+                }
+                format!("{}:{}", vx::h(k), show_in_order(&v))
+            })
+            .collect::<Vec<_>>()
+            .join("/")
+    };
+    let sorted = |mut v: Vec<String>| -> String {
+        v.sort();
+        show_in_order(&v)
+    };
+    let index = format!(
+        "cho={}|feat={}|libs={}|fn={}|ton={}|tod={}|conj={}",
+        show_map(ns.choices.iter().map(|(k, v)| (k.value.clone(), names_raw(v.iter()))).collect(), true),
+        sorted(names_raw(ns.features.iter())),
+        sorted(names_raw(ns.libs.iter())),
+        sorted(ns.feature_names.clone()),
+        sorted(ns.tag_on_names.clone()),
+        show_map(ns.tag_on_defs.iter().map(|(k, v)| (k.value.clone(), names_raw(v.iter()))).collect(), false),
+        sorted(names_raw(ns.conjuncts.iter())),
+    );
+    // oracle: the indexes against the rows
+    {
+        let mut want_ton: BTreeSet<String> = BTreeSet::new();
+        for tags in lr.values() {
+            if let Some(l) = xt_list(tags.get("tagOn")) {
+                want_ton.extend(l.iter().flatten().cloned());
+            }
+        }
+        let got: BTreeSet<String> = ns.tag_on_names.iter().cloned().collect();
+        if got != want_ton || got.len() != ns.tag_on_names.len() {
+            out.fail("oracle_tag_on_names", format!("tag_on_names {:?}, rows {:?}", ns.tag_on_names, want_ton));
+        }
+        let want_feat: Vec<String> = lr.keys().filter(|k| k.contains(':')).cloned().collect();
+        let mut got_feat = names_raw(ns.features.iter());
+        got_feat.sort();
+        if got_feat != want_feat {
+            out.fail("oracle_features", format!("features {got_feat:?}, rows {want_feat:?}"));
+        }
+        let want_fn: BTreeSet<String> = want_feat.iter().map(|k| k.split(':').next().unwrap_or("").to_string()).collect();
+        let got_fn: BTreeSet<String> = ns.feature_names.iter().cloned().collect();
+        if got_fn != want_fn || got_fn.len() != ns.feature_names.len() {
+            out.fail("oracle_feature_names", format!("feature_names {:?}, rows {:?}", ns.feature_names, want_fn));
+        }
+        let mut got_libs = names_raw(ns.libs.iter());
+        got_libs.sort();
+        if got_libs != o.sub("lib") {
+            out.fail("oracle_libs", format!("libs {got_libs:?}, graph {:?}", o.sub("lib")));
+        }
+        let want_cho: BTreeMap<String, Vec<String>> =
+            lr.iter().filter(|(_, t)| xt_list(t.get("is")).map_or(false, |l| l.contains(&Some("choice".to_string())))).map(|(k, _)| (k.clone(), o.sub(k))).collect();
+        let got_cho: BTreeMap<String, Vec<String>> = ns
+            .choices
+            .iter()
+            .map(|(k, v)| {
+                let mut v = names_raw(v.iter());
+                v.sort();
+                (k.value.clone(), v)
+            })
+            .collect();
+        if got_cho != want_cho {
+            out.fail("oracle_choices_index", format!("choices {got_cho:?}, rows {want_cho:?}"));
+        }
+        let want_tod: BTreeMap<String, Vec<String>> = lr
+            .iter()
+            .filter_map(|(k, t)| xt_list(t.get("tagOn")).map(|l| (k.clone(), l.iter().flatten().filter(|s| o.defined(s)).cloned().collect())))
+            .collect();
+        let got_tod: BTreeMap<String, Vec<String>> = ns.tag_on_defs.iter().map(|(k, v)| (k.value.clone(), names_raw(v.iter()))).collect();
+        if got_tod != want_tod {
+            out.fail("oracle_tag_on_defs", format!("tag_on_defs {got_tod:?}, rows {want_tod:?}"));
+        }
+    }
+    // ---- associations / implementation / roots per query symbol ------------------------------
+    let assocs = assoc_names(rows, &o);
+    let mut replies = Vec::new();
+    for q in queries {
+        let mut parts = Vec::new();
+        for a in &assocs {
+            let mut got = names_raw(ns.associations(&sym(q), &sym(a)).into_iter());
+            got.sort();
+            // the statement of `C13.associations_*`: by the rows alone
+            let want: Vec<String> = (|| {
+                let Some(ad) = lr.get(a) else { return vec![] };
+                if !xt_list(ad.get("is")).map_or(false, |l| l.contains(&Some("association".to_string()))) {
+                    return vec![];
+                }
+                if !ad.contains_key("computedFromReciprocal") {
+                    let key = a.as_str();
+                    let l = if key == "def" { None } else { lr.get(q).and_then(|p| xt_list(p.get(key))) };
+                    let mut v: Vec<String> = l.map_or(vec![], |l| l.iter().flatten().filter(|s| o.defined(s)).cloned().collect());
+                    v.sort();
+                    return v;
+                }
+                let Some(XTag::Sym(r)) = ad.get("reciprocalOf") else { return vec![] };
+                if !o.defined(r) {
+                    return vec![];
+                }
+                let inh = o.inheritance(q);
+                let mut v: Vec<String> = lr
+                    .iter()
+                    .filter(|(_, t)| xt_list(t.get(r.as_str())).map_or(false, |l| l.iter().flatten().any(|s| inh.contains(s))))
+                    .map(|(k, _)| k.clone())
+                    .collect();
+                v.sort();
+                v
+            })();
+            if got != want {
+                out.fail("oracle_associations", format!("associations({q:?}, {a:?}): namespace {got:?}, rows {want:?}"));
+            }
+            if !got.is_empty() {
+                out.stat(if lr.get(a).map_or(false, |t| t.contains_key("computedFromReciprocal")) { "assoc_computed_nonempty" } else { "assoc_plain_nonempty" });
+            }
+            parts.push(format!("{}={}", vx::h(a), show_in_order(&got)));
+        }
+        // the three named associations are the general one
+        for (nm, v) in [("is", ns.is(&sym(q))), ("tagOn", ns.tag_on(&sym(q))), ("tags", ns.tags(&sym(q)))] {
+            let mut a = names_raw(v.into_iter());
+            a.sort();
+            let mut b = names_raw(ns.associations(&sym(q), &sym(nm)).into_iter());
+            b.sort();
+            if a != b {
+                out.fail("oracle_named_association", format!("{nm}({q:?}) = {a:?}, associations = {b:?}"));
+            }
+        }
+        // implementation
+        let imp = names_raw(ns.implementation(&sym(q)).into_iter());
+        let base: Vec<String> = q.split('-').filter(|p| o.defined(p) && !p.contains(':')).map(|p| p.to_string()).collect();
+        let mut sup: BTreeSet<String> = BTreeSet::new();
+        for b in &base {
+            sup.extend(o.all_sup(b));
+        }
+        let want_mand: Vec<String> = sup.into_iter().filter(|n| lr.get(n).map_or(false, |t| t.get("mandatory") == Some(&XTag::Marker))).collect();
+        let (got_base, got_mand) = if imp.len() >= base.len() { (imp[..base.len()].to_vec(), { let mut m = imp[base.len()..].to_vec(); m.sort(); m }) } else { (imp.clone(), vec![]) };
+        if got_base != base || got_mand != want_mand {
+            out.fail("oracle_implementation", format!("implementation({q:?}) = {imp:?}, graph: parts {base:?} then mandatory {want_mand:?}"));
+        }
+        if !want_mand.is_empty() {
+            out.stat("implementation_with_mandatory");
+        }
+        // roots
+        let roots = [ns.fits_marker(&sym(q)), ns.fits_val(&sym(q)), ns.fits_choice(&sym(q)), ns.fits_entity(&sym(q))];
+        for (i, r) in ["marker", "val", "choice", "entity"].iter().enumerate() {
+            if roots[i] != o.fits(q, r) {
+                out.fail("oracle_fits_root", format!("fits_{r}({q:?}) = {}, graph {}", roots[i], o.fits(q, r)));
+            }
+        }
+        let bits: String = roots.iter().map(|b| if *b { '1' } else { '0' }).collect();
+        parts.push(format!("impl={}+{}", show_in_order(&got_base), show_in_order(&got_mand)));
+        parts.push(format!("roots={bits}"));
+        replies.push(parts.join("|"));
+    }
+    {
+        let mut t = vec![];
+        write_names(queries, &mut t);
+        write_names(&assocs, &mut t);
+        out.req(format!("C13 assoc {graph} {}", t.join(" ")), format!("ok {index}#{}", replies.join(";")));
+    }
+    // ---- entity type ---------------------------------------------------------------------------
+    if !recs.is_empty() {
+        let mut dicts: Vec<&Dict> = ns.defs.values().collect();
+        dicts.sort();
+        let order: Vec<String> = dicts.iter().map(|d| d.def_name().clone()).collect();
+        let mut ereplies = Vec::new();
+        for r in recs {
+            let d = rec_dict(r);
+            let et = ns.reflect(&d).entity_type; // = `def_of_dict`, whose signature wants a record that outlives the namespace
+            let got: Option<String> = if et.is_empty() { None } else { Some(et.def_name().clone()) };
+            // the most specific reflected entity def(s)
+            let refl = o.reflect(r);
+            let ents: Vec<&String> = refl.iter().filter(|n| o.defined("entity") && o.inheritance(n).contains("entity")).collect();
+            let cands: Vec<&String> =
+                if ents.len() == 1 { ents.clone() } else { ents.iter().filter(|d| !ents.iter().any(|e| e != *d && o.inheritance(e).contains(**d))).cloned().collect() };
+            let ok = match &got {
+                None => cands.is_empty(),
+                Some(g) => cands.contains(&g),
+            };
+            if !ok {
+                out.fail("oracle_entity_type", format!("record {r:?}: entity type {got:?}, most specific reflected entity defs {cands:?}"));
+            }
+            if got.is_some() {
+                out.stat("entity_type_found");
+            }
+            if ents.len() > 1 {
+                out.stat("entity_type_among_several");
+            }
+            ereplies.push(vx::ho(&got));
+        }
+        let mut t = vec![];
+        write_names(&order, &mut t);
+        write_recs(recs, &mut t);
+        out.req(format!("C13 ent {graph} {}", t.join(" ")), format!("ok {}", ereplies.join(";")));
+    }
+    // ---- has_relationship ------------------------------------------------------------------------
+    if let Some((rrecs, rqs)) = rel {
+        if !rqs.is_empty() {
+            let dicts: Vec<Dict> = rrecs.iter().map(|r| r.dict()).collect();
+            let resolve = |r: &Ref| -> Option<Dict> { rrecs.iter().position(|x| x.key.as_deref() == Some(r.value.as_str())).map(|i| dicts[i].clone()) };
+            let mut rreplies = Vec::new();
+            for q in rqs {
+                let subject = &dicts[q.subject.min(dicts.len().saturating_sub(1))];
+                let got = ns.has_relationship(subject, &sym(&q.rel), &q.term.as_deref().map(sym), &q.target.as_deref().map(Ref::from), &resolve);
+                if got {
+                    out.stat("relationship_holds");
+                }
+                if q.target.is_some() && lr.get(&q.rel).map_or(false, |t| t.get("transitive") == Some(&XTag::Marker)) {
+                    out.stat("relationship_transitive_with_target");
+                }
+                rreplies.push(if got { "1" } else { "0" }.to_string());
+            }
+            // the model's records: every tag in key order, `id` included; a Ref value by its id
+            let mut t = vec![rrecs.len().to_string()];
+            for (r, d) in rrecs.iter().zip(&dicts) {
+                t.push(vx::ho(&r.key));
+                t.push(match d.get_ref("id") {
+                    Some(r) => vx::h(&r.value),
+                    None => "-".into(),
+                });
+                t.push(d.len().to_string());
+                for (k, v) in d.iter() {
+                    t.push(vx::h(k));
+                    t.push(match v {
+                        Value::Ref(r) => vx::h(&r.value),
+                        _ => "-".into(),
+                    });
+                }
+            }
+            t.push(rqs.len().to_string());
+            for q in rqs {
+                t.push(q.subject.min(dicts.len().saturating_sub(1)).to_string());
+                t.push(vx::h(&q.rel));
+                t.push(vx::ho(&q.term));
+                t.push(vx::ho(&q.target));
+            }
+            out.req(format!("C13 rel {graph} {}", t.join(" ")), format!("ok {}", rreplies.join(";")));
+        }
+    }
+}
+
+/// def names in the order given (no sorting)
+fn names_raw<'x, I: Iterator<Item = &'x Dict>>(it: I) -> Vec<String> {
+    it.map(|d| d.def_name().clone()).collect()
 }
 
 // ------------------------------------------------------------------------------------------------
@@ -1147,6 +1657,11 @@ pub fn generate(ctx: &mut Ctx) {
 }
 
 fn emit_graph_case(ctx: &mut Ctx, rng: &mut Rng, label: &str, rows: &[RowSpec]) {
+    let mut rows: Vec<RowSpec> = rows.to_vec();
+    if rng.chance(4, 5) {
+        add_assoc_rows(rng, &mut rows);
+    }
+    let rows: &[RowSpec] = &rows;
     let o = Oracle::new(rows);
     let mut queries = mentioned(&o);
     queries.push("neverMentioned".into());
@@ -1175,7 +1690,161 @@ fn emit_graph_case(ctx: &mut Ctx, rng: &mut Rng, label: &str, rows: &[RowSpec]) 
     write_recs(&recs, &mut t);
     t.push("b".into());
     write_names(&bases, &mut t);
+    let (rrecs, rqs) = gen_rel(rng, rows, false);
+    t.push("x".into());
+    write_rel(&rrecs, &rqs, &mut t);
     ctx.case(label, &t.join(" "));
+}
+
+/// association / relationship structure on top of a generated taxonomy: the standard-library shapes (`tagOn`
+/// plain, `tags` computed from it) and their malformed variants, `tagOn` / `mandatory` / custom association tags
+/// on existing defs, relationship defs (transitive, reciprocal) and ref-tag defs that carry them
+pub fn add_assoc_rows(rng: &mut Rng, rows: &mut Vec<RowSpec>) {
+    let defined: Vec<String> = rows.iter().filter_map(|r| match &r.def { DefTag::Sym(s) => Some(s.clone()), _ => None }).collect();
+    let has = |rows: &Vec<RowSpec>, n: &str| rows.iter().any(|r| matches!(&r.def, DefTag::Sym(s) if s == n));
+    let some = |s: &str| Some(s.to_string());
+    let pick = |rng: &mut Rng| -> String {
+        match rng.below(10) {
+            0 => rng.pick(UNDEF).to_string(),
+            _ if !defined.is_empty() => rng.pick(&defined).clone(),
+            _ => "marker".into(),
+        }
+    };
+    let pick_list = |rng: &mut Rng| -> Vec<Option<String>> {
+        (0..1 + rng.below(3)).map(|_| if rng.chance(1, 8) { None } else { Some(pick(rng)) }).collect()
+    };
+    // tags on existing defs
+    for r in rows.iter_mut() {
+        if !matches!(r.def, DefTag::Sym(_)) {
+            continue;
+        }
+        if rng.chance(1, 3) {
+            r.extra.push(("tagOn".into(), if rng.chance(1, 10) { ExtraV::Sym(pick(rng)) } else { ExtraV::List(pick_list(rng)) }));
+        }
+        if rng.chance(1, 6) {
+            r.extra.push(("mandatory".into(), if rng.chance(1, 8) { ExtraV::Other } else { ExtraV::Marker }));
+        }
+        if rng.chance(1, 5) {
+            r.extra.push(("myAssoc".into(), match rng.below(8) { 0 => ExtraV::Marker, 1 => ExtraV::Sym(pick(rng)), _ => ExtraV::List(pick_list(rng)) }));
+        }
+        if rng.chance(1, 8) {
+            r.extra.push(("fakeAssoc".into(), ExtraV::List(pick_list(rng))));
+        }
+    }
+    let mut new: Vec<RowSpec> = Vec::new();
+    for n in ["association", "relationship"] {
+        if !has(rows, n) {
+            new.push(RowSpec::plain(n, vec![]));
+        }
+    }
+    new.push(RowSpec::plain("tagOn", vec![some("association")]));
+    new.push(RowSpec::plain("is", vec![some("association")]));
+    let mut tags = RowSpec::plain("tags", vec![some("association")]);
+    match rng.below(10) {
+        0 => tags.extra = vec![("reciprocalOf".into(), ExtraV::sym("tagOn"))],
+        1 => tags.extra = vec![("computedFromReciprocal".into(), ExtraV::Marker), ("reciprocalOf".into(), ExtraV::sym("noSuchDef"))],
+        2 => tags.extra = vec![("computedFromReciprocal".into(), ExtraV::Marker), ("reciprocalOf".into(), ExtraV::Other)],
+        3 => tags.extra = vec![("computedFromReciprocal".into(), ExtraV::Marker)],
+        4 => {
+            tags.is = IsTag::List(vec![some("marker")]);
+            tags.extra = vec![("computedFromReciprocal".into(), ExtraV::Marker), ("reciprocalOf".into(), ExtraV::sym("tagOn"))];
+        }
+        5 => tags.extra = vec![("computedFromReciprocal".into(), ExtraV::Other), ("reciprocalOf".into(), ExtraV::sym("tagOn"))],
+        _ => tags.extra = vec![("computedFromReciprocal".into(), ExtraV::Marker), ("reciprocalOf".into(), ExtraV::sym("tagOn"))],
+    }
+    new.push(tags);
+    new.push(RowSpec::plain("myAssoc", vec![some("association")]));
+    let mut rev = RowSpec::plain("revAssoc", vec![some("association")]);
+    rev.extra = vec![("computedFromReciprocal".into(), ExtraV::Marker), ("reciprocalOf".into(), ExtraV::sym("myAssoc"))];
+    new.push(rev);
+    new.push(RowSpec::plain("fakeAssoc", vec![some("marker")]));
+    // relationships
+    let mut cb = RowSpec::plain("containedBy", vec![some("relationship")]);
+    cb.extra = vec![("reciprocalOf".into(), ExtraV::sym("contains"))];
+    if rng.chance(4, 5) {
+        cb.extra.push(("transitive".into(), ExtraV::Marker));
+    }
+    new.push(cb);
+    let mut ct = RowSpec::plain("contains", vec![some("relationship")]);
+    if rng.chance(1, 2) {
+        ct.extra = vec![("reciprocalOf".into(), ExtraV::sym("containedBy"))];
+    }
+    new.push(ct);
+    let mut inp = RowSpec::plain("inputs", vec![some("relationship")]);
+    if rng.chance(1, 3) {
+        inp.extra = vec![("transitive".into(), ExtraV::Marker)];
+    }
+    new.push(inp);
+    new.push(RowSpec::plain("feeds", vec![some("inputs")]));
+    new.push(RowSpec::plain("notRel", vec![]));
+    // ref tags carrying relationships
+    for t in ["equipRef", "siteRef", "spaceRef", "hotRef"] {
+        let mut r = RowSpec::plain(t, vec![]);
+        for relname in ["containedBy", "contains", "inputs", "feeds", "notRel"] {
+            if rng.chance(2, 5) {
+                r.extra.push((relname.into(), match rng.below(10) { 0 => ExtraV::Other, 1 => ExtraV::Marker, _ => ExtraV::Sym(pick(rng)) }));
+            }
+        }
+        new.push(r);
+    }
+    for r in new {
+        if let DefTag::Sym(n) = &r.def {
+            if has(rows, n) {
+                continue;
+            }
+        }
+        rows.push(r);
+    }
+}
+
+/// records (with Refs between them, cycles included) and queries for `has_relationship`
+pub fn gen_rel(rng: &mut Rng, rows: &[RowSpec], real_db: bool) -> (Vec<RelRec>, Vec<RelQuery>) {
+    let defined: Vec<String> = rows.iter().filter_map(|r| match &r.def { DefTag::Sym(s) => Some(s.clone()), _ => None }).collect();
+    let ids: Vec<String> = (0..6).map(|i| format!("r{i}")).collect();
+    let ref_tags: Vec<&str> =
+        if real_db { vec!["equipRef", "siteRef", "spaceRef", "hotWaterRef", "chilledWaterRef", "airRef", "elecRef", "systemRef"] } else { vec!["equipRef", "siteRef", "spaceRef", "hotRef"] };
+    let any_ref = |rng: &mut Rng| -> String { if rng.chance(1, 8) { "zz".into() } else { rng.pick(&ids).clone() } };
+    let mut recs = Vec::new();
+    for (i, id) in ids.iter().enumerate() {
+        let mut tags: BTreeMap<String, Option<String>> = BTreeMap::new();
+        // a blank record, a record without `id`, a record whose `id` is not the name it is resolved under
+        let shape = if i == 5 { rng.below(4) } else { 3 };
+        if shape == 0 {
+            recs.push(RelRec { key: Some(id.clone()), tags: vec![] });
+            continue;
+        }
+        match shape {
+            1 => {}
+            2 => {
+                tags.insert("id".into(), Some("other".into()));
+            }
+            _ => {
+                tags.insert("id".into(), Some(id.clone()));
+            }
+        }
+        for _ in 0..1 + rng.below(3) {
+            tags.insert(rng.pick(&ref_tags).to_string(), Some(any_ref(rng)));
+        }
+        if rng.chance(1, 4) && !defined.is_empty() {
+            // a Ref under a tag that is an ordinary def
+            tags.insert(rng.pick(&defined).clone(), Some(any_ref(rng)));
+        }
+        for _ in 0..rng.below(3) {
+            if !defined.is_empty() {
+                tags.entry(rng.pick(&defined).clone()).or_insert(None);
+            }
+        }
+        recs.push(RelRec { key: if rng.chance(1, 12) { None } else { Some(id.clone()) }, tags: tags.into_iter().collect() });
+    }
+    let rel_names: Vec<&str> = if real_db { vec!["containedBy", "contains", "inputs", "outputs", "hotWaterRef", "relationship", "neverMentioned"] } else { vec!["containedBy", "contains", "inputs", "feeds", "notRel", "neverMentioned"] };
+    let mut qs = Vec::new();
+    for _ in 0..8 {
+        let rel = if rng.chance(1, 8) && !defined.is_empty() { rng.pick(&defined).clone() } else { rng.pick(&rel_names).to_string() };
+        let term = if rng.chance(2, 3) && !defined.is_empty() { Some(if rng.chance(1, 8) { "neverMentioned".into() } else { rng.pick(&defined).clone() }) } else { None };
+        let target = if rng.chance(3, 5) { Some(any_ref(rng)) } else { None };
+        qs.push(RelQuery { subject: rng.below(ids.len() as u64) as usize, rel, term, target });
+    }
+    (recs, qs)
 }
 
 // ------------------------------------------------------------------------------------------------
@@ -1215,7 +1884,27 @@ pub fn rows_of_grid(grid: &Grid) -> Vec<RowSpec> {
                 Some(Value::Symbol(s)) => IsTag::Single(s.value.clone()),
                 _ => IsTag::Absent,
             };
-            RowSpec { def, is, extra: vec![] }
+            let extra = d
+                .iter()
+                .filter(|(k, _)| k.as_str() != "def" && k.as_str() != "is" && k.as_str() != "doc")
+                .map(|(k, v)| {
+                    let x = match v {
+                        Value::Marker => ExtraV::Marker,
+                        Value::Symbol(s) => ExtraV::Sym(s.value.clone()),
+                        Value::List(l) => ExtraV::List(
+                            l.iter()
+                                .map(|v| match v {
+                                    Value::Symbol(s) => Some(s.value.clone()),
+                                    _ => None,
+                                })
+                                .collect(),
+                        ),
+                        _ => ExtraV::Other,
+                    };
+                    (k.clone(), x)
+                })
+                .collect();
+            RowSpec { def, is, extra }
         })
         .collect()
 }
@@ -1249,9 +1938,14 @@ pub fn exec(label: &str, input: &str, out: &mut CaseOut) {
                     return None;
                 }
                 let bases = read_names(&mut rd)?;
-                Some((rows, queries, recs, bases))
+                // optional: records and queries for `has_relationship`
+                let rel = match rd.tok() {
+                    Some("x") => Some(read_rel(&mut rd)?),
+                    _ => None,
+                };
+                Some((rows, queries, recs, bases, rel))
             })();
-            let Some((rows, queries, recs, bases)) = parsed else {
+            let Some((rows, queries, recs, bases, rel)) = parsed else {
                 out.fail("harness", "unparsable C13 input".into());
                 return;
             };
@@ -1292,6 +1986,11 @@ pub fn exec(label: &str, input: &str, out: &mut CaseOut) {
                 out.stat("graph_with_conjunct_of_empty_part");
             }
             run_queries(&rows, ns, &queries, &queries, &recs, &bases, out);
+            {
+                // part 2 on a bounded number of query symbols (`associations` walks all defs per call)
+                let q2: Vec<String> = if queries.len() > 40 { queries.iter().step_by(queries.len() / 40 + 1).cloned().collect() } else { queries.clone() };
+                run_part2(&rows, ns, &q2, &recs, rel.as_ref(), out);
+            }
             unsafe { free_ns(ns) };
         }
         Some("zinc") => {
@@ -1319,6 +2018,11 @@ pub fn exec(label: &str, input: &str, out: &mut CaseOut) {
             // a fresh namespace per case (cold caches), the whole database as the fits universe
             let ns: &'static Namespace<'static> = Box::leak(Box::new(Namespace::make(db.grid.clone())));
             run_queries(&db.rows, ns, &queries, &db.symbols, &recs, &bases, out);
+            {
+                let q2: Vec<String> = queries.iter().step_by(4).cloned().collect();
+                let rel = gen_rel(&mut rng, &db.rows, true);
+                run_part2(&db.rows, ns, &q2, &recs, Some(&rel), out);
+            }
             unsafe { free_ns(ns) };
             let _ = label;
         }
